@@ -4,13 +4,14 @@
 -/
 import Driver.Util
 import Driver.Handlers.Dates
+import Driver.Handlers.Similarity
 import Driver.Handlers.DateParse
 import Driver.Handlers.Decoder
 import Driver.Handlers.Resolve
 namespace Driver
 
 def handlers : List (String → List String → Option String) :=
-  [handleDates, handleDateParse, handleDecoder, handleResolve]
+  [handleDates, handleSimilarity, handleDateParse, handleDecoder, handleResolve]
 
 def respond (line : String) : String :=
   match line.splitOn " " with
